@@ -2791,6 +2791,468 @@ def r02_13(prog, rep, rid='R02.13'):
 
 # ------------------------------------------------------------------------------
 #
+# ------------------------------------------------------------------------------
+# R02.15  NodeList.find_slots: a request for ranks without a core is rejected
+#         before a slot is searched
+#
+# Node.find_slot skips the core search for a request whose core count is zero
+# (`if rr.n_cores:`), so the slot it grants for such a request holds no core.
+# The necessary condition decided here: with the core count of the request
+# fixed to 0, no path from the entry of NodeList.find_slots reaches the call of
+# find_slot (a raise on the zero edge of a test of the count, an unconditional
+# division by the count, or a callee that the request is handed to and that
+# cannot complete for a zero count, all stop the path) - unless find_slot
+# itself cannot return a slot for a zero count.
+#
+_ZERO_FIELD = _RR_COUNT['cores']
+NODELIST_CLS = ('resource_config.py', 'NodeList')
+_UNDEC = object()
+
+
+class _Zero:
+    """paths of one function for a request (parameter `param`) whose field
+    `field` is 0"""
+
+    def __init__(self, prog, f, param, field, depth=0):
+        self.prog, self.f, self.param, self.field = prog, f, param, field
+        self.depth = depth
+        self.g = cfg_of(f)
+        self.smap = I.stmt_node_map(self.g)
+        for x in walk(f.node):
+            if isinstance(x, ast.Name) and x.id == param and \
+                    isinstance(x.ctx, (ast.Store, ast.Del)):
+                raise AnalysisError('UNRECOGNISED-IDIOM %s: the request '
+                                    'parameter `%s` is re-bound'
+                                    % (f.where, param))
+        self._seen = None
+
+    # -- the field -------------------------------------------------------------
+    def direct(self, e):
+        if isinstance(e, ast.Attribute) and e.attr == self.field and \
+                isinstance(e.value, ast.Name) and e.value.id == self.param:
+            return True
+        if isinstance(e, ast.Subscript) and isinstance(e.value, ast.Name) and \
+                e.value.id == self.param and \
+                isinstance(e.slice, ast.Constant) and \
+                e.slice.value == self.field:
+            return True
+        return False
+
+    def is_field(self, e, at):
+        if isinstance(e, ast.Name):
+            e, at = _hoisted(self.g, e, at)
+        return self.direct(e)
+
+    def value(self, e, at):
+        """value of `e` at cfg node `at` when the field is 0, else _UNDEC"""
+        if self.is_field(e, at):
+            return 0
+        if isinstance(e, ast.Name):
+            h, hat = _hoisted(self.g, e, at)
+            return self.value(h, hat) if h is not e else _UNDEC
+        if isinstance(e, ast.Constant):
+            return e.value
+        if isinstance(e, ast.IfExp):
+            v = self.value(e.test, at)
+            if v is _UNDEC:
+                return _UNDEC
+            return self.value(e.body if v else e.orelse, at)
+        if isinstance(e, ast.UnaryOp) and isinstance(e.op, ast.Not):
+            v = self.value(e.operand, at)
+            return _UNDEC if v is _UNDEC else (not v)
+        if isinstance(e, ast.Call) and isinstance(e.func, ast.Name) and \
+                e.func.id in ('bool', 'int', 'float') and len(e.args) == 1 \
+                and not e.keywords:
+            v = self.value(e.args[0], at)
+            if v is _UNDEC or not isinstance(v, (bool, int, float)):
+                return _UNDEC
+            return {'bool': bool, 'int': int, 'float': float}[e.func.id](v)
+        if isinstance(e, ast.BoolOp):
+            vs = [self.value(x, at) for x in e.values]
+            if isinstance(e.op, ast.And):
+                for v in vs:
+                    if v is _UNDEC:
+                        return _UNDEC
+                    if not v:
+                        return v
+                return vs[-1]
+            for v in vs:
+                if v is _UNDEC:
+                    return _UNDEC
+                if v:
+                    return v
+            return vs[-1]
+        if isinstance(e, ast.Compare) and len(e.ops) == 1:
+            a = self.value(e.left, at)
+            b = self.value(e.comparators[0], at)
+            if a is _UNDEC or b is _UNDEC:
+                return _UNDEC
+            op = e.ops[0]
+            try:
+                if isinstance(op, ast.Lt):    return a <  b
+                if isinstance(op, ast.LtE):   return a <= b
+                if isinstance(op, ast.Gt):    return a >  b
+                if isinstance(op, ast.GtE):   return a >= b
+                if isinstance(op, ast.Eq):    return a == b
+                if isinstance(op, ast.NotEq): return a != b
+                if isinstance(op, ast.Is):    return a is b
+                if isinstance(op, ast.IsNot): return a is not b
+            except TypeError:
+                return _UNDEC
+        return _UNDEC
+
+    # -- statements that cannot complete for a zero count ----------------------
+    def _divides(self, n):
+        """the statement divides by the field, unconditionally"""
+        hidden = set()
+        for x in walk(n.ast):
+            if isinstance(x, (ast.IfExp, ast.Lambda, ast.ListComp, ast.SetComp,
+                              ast.DictComp, ast.GeneratorExp)):
+                hidden |= {id(y) for y in walk(x)} - {id(x)}
+            elif isinstance(x, ast.BoolOp):
+                for v in x.values[1:]:
+                    hidden |= {id(y) for y in walk(v)}
+        for x in walk(n.ast):
+            if isinstance(x, (ast.BinOp, ast.AugAssign)) and \
+                    id(x) not in hidden and \
+                    isinstance(x.op, (ast.Div, ast.FloorDiv, ast.Mod)):
+                v = self.value(x.right if isinstance(x, ast.BinOp)
+                               else x.value, n.id)
+                if v is not _UNDEC and isinstance(v, (int, float)) and v == 0:
+                    return True
+        return False
+
+    def _rejecting_call(self, n, keep):
+        """the statement hands the request to a method of the same class which
+        cannot complete for a zero count"""
+        if self.depth >= 3:
+            return False
+        for c in calls_in(n.ast):
+            if id(c) in keep:
+                continue
+            h = self.prog.resolve_call(self.f, c, self.f.cls)
+            if h is None or h is self.f or h.cls is None:
+                continue
+            hp = [p for p in h.params]
+            if hp and hp[0] in ('self', 'cls') and \
+                    isinstance(c.func, ast.Attribute):
+                hp = hp[1:]
+            bound = None
+            for i, a in enumerate(c.args):
+                if isinstance(a, ast.Name) and a.id == self.param and \
+                        i < len(hp):
+                    bound = hp[i]
+            for k in c.keywords:
+                if isinstance(k.value, ast.Name) and \
+                        k.value.id == self.param and k.arg:
+                    bound = k.arg
+            if bound is None:
+                continue
+            z = _Zero(self.prog, h, bound, self.field, self.depth + 1)
+            if not z.completes():
+                return True
+        return False
+
+    def blocked(self, n, keep=()):
+        if n.ast is None or n.kind not in ('stmt', 'test', 'with', 'for',
+                                          'while'):
+            return False
+        if n.kind == 'for':
+            return False
+        return self._divides(n) or self._rejecting_call(n, keep)
+
+    # -- reachability ----------------------------------------------------------
+    def reach(self, keep=()):
+        """cfg node ids reachable from the entry for a zero count; `keep`:
+        ids of calls that are targets, not summarised"""
+        g = self.g
+        seen, todo = set(), [g.entry.id]
+        while todo:
+            i = todo.pop()
+            if i in seen:
+                continue
+            seen.add(i)
+            n = g.nodes[i]
+            stop = self.blocked(n, keep)
+            dead = None
+            if n.kind == 'test' and n.ast is not None:
+                v = self.value(n.ast, i)
+                if v is not _UNDEC:
+                    dead = 'F' if v else 'T'
+            for e in g.succ[i]:
+                if stop and e.label != 'exc':
+                    continue
+                if dead is not None and e.label == dead:
+                    continue
+                todo.append(e.dst)
+        return seen
+
+    def undecided(self, seen):
+        """tests on the way whose outcome depends on the field in a way that
+        is not decided here"""
+        g = self.g
+        tainted = set()
+        changed = True
+        while changed:
+            changed = False
+            for i in seen:
+                n = g.nodes[i]
+                if n.kind != 'stmt' or not isinstance(
+                        n.ast, (ast.Assign, ast.AugAssign, ast.AnnAssign)) \
+                        or n.ast.value is None:
+                    continue
+                if not self._mentions(n.ast.value, tainted, i):
+                    continue
+                tg = n.ast.targets if isinstance(n.ast, ast.Assign) \
+                    else [n.ast.target]
+                for t in tg:
+                    for name in stores_in_target(t):
+                        if name not in tainted:
+                            tainted.add(name)
+                            changed = True
+        out = []
+        for i in seen:
+            n = g.nodes[i]
+            if n.kind == 'test' and n.ast is not None and \
+                    self.value(n.ast, i) is _UNDEC and \
+                    self._mentions(n.ast, tainted, i):
+                out.append(n)
+        return out
+
+    def _mentions(self, e, tainted, at=None):
+        """`e` mentions the field or a local computed from it (also where the
+        sub expression has a known value for a zero count: that value was
+        obtained through the field)"""
+        for x in walk(e):
+            if self.direct(x):
+                return True
+            if isinstance(x, ast.Name) and x.id in tainted:
+                return True
+        return False
+
+    def _decide(self, seen, hit):
+        if not hit:
+            return False
+        und = self.undecided(seen)
+        if und:
+            raise AnalysisError(
+                'UNRECOGNISED-IDIOM %s: the test `%s` depends on %s.%s in a '
+                'way that is not decided for the value 0'
+                % (self.f.where, short(und[0].ast, 50), self.param,
+                   self.field))
+        return True
+
+    def completes(self):
+        """the function can complete normally for a zero count"""
+        seen = self.reach()
+        return self._decide(seen, self.g.exit.id in seen)
+
+    def returns_value(self):
+        """the function can return something other than None"""
+        seen = self.reach()
+        hit = [i for i in seen if isinstance(self.g.nodes[i].ast, ast.Return)
+               and self.g.nodes[i].kind == 'stmt'
+               and self.g.nodes[i].ast.value is not None
+               and not (isinstance(self.g.nodes[i].ast.value, ast.Constant)
+                        and self.g.nodes[i].ast.value.value is None)]
+        return self._decide(seen, bool(hit))
+
+    def reaches(self, calls):
+        """[call ast] of `calls` that are reached"""
+        keep = {id(c) for c in calls}
+        seen = self.reach(keep)
+        hit = [c for c in calls if self.smap[id(c)].id in seen]
+        self._decide(seen, bool(hit))
+        return hit
+
+
+def r02_15(prog, rep, rid='R02.15'):
+    rep.rule(rid, 'NodeList.find_slots: a request for ranks without a core '
+             '(n_cores == 0) cannot reach Node.find_slot, which grants a slot '
+             'without cores for it', minimum=1)
+    N = prog.cls(*NODE_CLS)
+    L = prog.cls(*NODELIST_CLS)
+    fs = prog.find_method(N, 'find_slot')
+    f = prog.find_method(L, 'find_slots')
+    if fs is None or f is None:
+        raise AnalysisError('Node.find_slot / NodeList.find_slots not found')
+    rep.saw(f)
+    rep.saw(fs)
+
+    def request_param(h):
+        ps = [p for p in h.params if p not in ('self', 'cls')]
+        if not ps:
+            raise AnalysisError('UNRECOGNISED-IDIOM %s: no request parameter'
+                                % h.where)
+        return ps[0]
+
+    rr = request_param(f)
+    calls = [c for c in calls_in(f.node)
+             if isinstance(c.func, ast.Attribute) and c.func.attr == fs.name
+             and any(isinstance(a, ast.Name) and a.id == rr
+                     for a in list(c.args) + [k.value for k in c.keywords])]
+    if not calls:
+        raise AnalysisError('UNRECOGNISED-IDIOM %s: no call of find_slot for '
+                            'the request `%s`' % (f.where, rr))
+    grants = _Zero(prog, fs, request_param(fs), _ZERO_FIELD).returns_value()
+    hit = _Zero(prog, f, rr, _ZERO_FIELD).reaches(calls) if grants else []
+    for c in calls:
+        rep.check(c not in hit, rid, f,
+                  'a request with %s == 0 is rejected before `%s`'
+                  % (_ZERO_FIELD, short(c, 40)),
+                  construct='NodeList.find_slots:zero-cores',
+                  message='NodeList.find_slots: a request with %s.%s == 0 '
+                  'passes every check on the way (no raise on the zero edge '
+                  'of a test of the count, no division by it) and reaches '
+                  '`%s`; Node.find_slot skips the core search for a zero '
+                  'count and returns a slot with an empty core list, so the '
+                  'rank is granted without a core instead of the request '
+                  'being rejected' % (rr, _ZERO_FIELD, short(c, 40)),
+                  loc=f.loc(c),
+                  history='NodeList of 2 nodes x 4 cores x 2 gpus; '
+                  'find_slots(RankRequirements(n_cores=0, n_gpus=1), 2) '
+                  'returns two slots whose `cores` are [] (a rank needs at '
+                  'least one core; the request has to be rejected)')
+
+
+# ------------------------------------------------------------------------------
+# R02.16  the colocate history outlives the tasks: nothing ever forgets a tag
+#
+# "Placed only on nodes already used for that tag" is decided by schedule_task
+# from self._colo_history.  The tag is meant to outlive the task (its data
+# stays on the node), so for every history `schedule T(tag), ..., release T,
+# schedule T'(tag)` the entry recorded for T must still be there when T' is
+# placed.  Necessary condition: no method the scheduler classes see removes an
+# entry (pop / popitem / clear / del), shrinks the node list of an entry, or
+# re-binds the history outside the life-cycle hooks that set it up.
+#
+_LIFECYCLE = ('__init__', '_configure', 'initialize')
+_DICT_SHRINK = ('pop', 'popitem', 'clear')
+_LIST_SHRINK = ('pop', 'remove', 'clear')
+
+
+def _history_changes(f):
+    """(removals, rebinds) of self._colo_history in one function:
+    removals = [(ast node, what)], rebinds = [ast stmt]"""
+    whole, entry = set(), set()
+    for x in walk(f.node):
+        if isinstance(x, (ast.Assign, ast.AnnAssign)) and x.value is not None:
+            tg = x.targets if isinstance(x, ast.Assign) else [x.target]
+            for t in tg:
+                if isinstance(t, ast.Name):
+                    if unparse(x.value) == _HIST:
+                        whole.add(t.id)
+                    elif _entry_of(x.value, ()):
+                        entry.add(t.id)
+
+    def is_whole(e):
+        return unparse(e) == _HIST or (isinstance(e, ast.Name) and
+                                       e.id in whole)
+
+    def is_entry(e):
+        return _entry_of(e, whole) or (isinstance(e, ast.Name) and
+                                       e.id in entry)
+
+    removals, rebinds = [], []
+    for x in walk(f.node):
+        if isinstance(x, ast.Call) and isinstance(x.func, ast.Attribute):
+            if x.func.attr in _DICT_SHRINK and is_whole(x.func.value):
+                removals.append((x, 'removes an entry of the history'))
+            elif x.func.attr in _LIST_SHRINK and is_entry(x.func.value):
+                removals.append((x, 'removes nodes from the entry of a tag'))
+        elif isinstance(x, ast.Delete):
+            for t in x.targets:
+                if isinstance(t, ast.Subscript) and is_whole(t.value):
+                    removals.append((x, 'deletes an entry of the history'))
+                elif isinstance(t, ast.Subscript) and is_entry(t.value):
+                    removals.append((x, 'deletes nodes from the entry of a '
+                                        'tag'))
+                elif unparse(t) == _HIST:
+                    rebinds.append(x)
+        elif isinstance(x, (ast.Assign, ast.AugAssign, ast.AnnAssign)):
+            tg = x.targets if isinstance(x, ast.Assign) else [x.target]
+            for t in tg:
+                for s in (t.elts if isinstance(t, (ast.Tuple, ast.List))
+                          else [t]):
+                    if unparse(s) == _HIST:
+                        rebinds.append(x)
+    return removals, rebinds
+
+
+def _entry_of(e, whole):
+    """`e` is the node list recorded for a tag: H[tag] / H.get(tag ..)"""
+    def is_whole(v):
+        return unparse(v) == _HIST or (isinstance(v, ast.Name) and
+                                       v.id in whole)
+    if isinstance(e, ast.Subscript) and is_whole(e.value) and \
+            not isinstance(e.slice, ast.Slice):
+        return True
+    if isinstance(e, ast.Call) and isinstance(e.func, ast.Attribute) and \
+            e.func.attr in ('get', 'setdefault') and is_whole(e.func.value):
+        return True
+    return False
+
+
+def _setup_only(methods, name, seen=()):
+    """method `name` runs only while the component is set up: it is a
+    life-cycle hook or every caller (self.<name>(..) in the class) is"""
+    if name in _LIFECYCLE:
+        return True
+    if name in seen:
+        return False
+    callers = [m for m, h in methods.items() if m != name and any(
+        call_name(c) in ('self.%s' % name, 'cls.%s' % name)
+        for c in calls_in(h.node))]
+    return bool(callers) and all(_setup_only(methods, m, tuple(seen) + (name,))
+                                 for m in callers)
+
+
+def r02_16(prog, rep, rid='R02.16'):
+    rep.rule(rid, 'the colocate history outlives the tasks: no method of the '
+             'scheduler removes an entry, shrinks the node list of a tag or '
+             're-binds the history outside the set-up of the component',
+             minimum=4)
+    base, classes = sched_classes(prog)
+    hist = 'nodes 0 and 1 of 4 cores; A (colocate tag x, 4 cores) fills ' \
+           'node 0, B (no tag, 1 core) goes to node 1 and moves the node ' \
+           'offset, A is released, C (tag x, 1 core) arrives: the entry of ' \
+           'x is gone, x counts as a new tag and C is placed on node 1 ' \
+           'although x was used on node 0 only'
+    for K in classes:
+        methods = I.class_methods(prog, K)
+        bad = 0
+        binds = 0
+        for name in sorted(methods):
+            f = methods[name]
+            removals, rebinds = _history_changes(f)
+            for x, what in removals:
+                bad += 1
+                rep.bad(rid, f, '%s:%s:forgets' % (K.name, name),
+                        '%s.%s: `%s` %s; the tag is meant to outlive the '
+                        'task, the next task with the tag is treated as the '
+                        'first one and placed on any node'
+                        % (K.name, name, short(x, 60), what),
+                        f.loc(x), history=hist)
+            for x in rebinds:
+                binds += 1
+                rep.check(_setup_only(methods, name), rid, f,
+                          '%s: the history is bound in %s, which runs only '
+                          'while the component is set up' % (K.name, name),
+                          construct='%s:%s:rebinds' % (K.name, name),
+                          message='%s.%s: `%s` replaces the colocate history '
+                          'while tasks are scheduled and released; every tag '
+                          'recorded so far is forgotten'
+                          % (K.name, name, short(x, 60)),
+                          loc=f.loc(x), history=hist)
+        if not binds:
+            raise AnalysisError('UNRECOGNISED-IDIOM %s: %s is never bound'
+                                % (K.name, _HIST))
+        if not bad:
+            rep.ok(rid, K.name, 'no method of %s (%d seen) removes an entry '
+                   'of the colocate history' % (K.name, len(methods)),
+                   K.module.rel)
+
+
 def run(prog, rep, tier):
     rep.decided = ('per-node search: a slot is appended only past a "count '
         'reached" test for every kind it picks, picking stops at the '
@@ -2819,7 +3281,11 @@ def run(prog, rep, tier):
         '_try_allocation returns a true value only past the store of the '
         'non-empty result of schedule_task; the deprecated spellings of the '
         'request shape reach the attributes schedule_task reads (R19.1 '
-        're-evaluated for them).')
+        're-evaluated for them); NodeList.find_slots: with the core count '
+        'of the request fixed to 0 no path reaches Node.find_slot (which '
+        'would grant a slot without cores); no method of the schedulers '
+        'removes an entry of the colocate history, shrinks the node list of '
+        'a tag or re-binds the history outside the set-up of the component.')
     rep.undecided = ('that the indices chosen are the right ones for every '
         'occupancy; numeric adequacy of slots_per_node; R02.3 (the four '
         'per-node asserts) is information only - removing one does not yield '
@@ -2854,6 +3320,17 @@ def run(prog, rep, tier):
         '"placed" (base._schedule_incoming, lazy_bisect in '
         '_schedule_waitpool, continuous_colo / continuous_ordered)',
         'R02.13: the documented replacements are those of c19.ALIAS_SPEC',
+        'R02.15: only the value 0 of the core count is followed (tests of '
+        'the count itself or of a plain local copy are decided, a division '
+        'by it and a same-class callee that cannot complete stop the path); '
+        'a test on a value computed from the count in any other way is '
+        'UNRECOGNISED-IDIOM, not a finding; the agent-side search is '
+        'protected by the unconditional division cores_per_node / '
+        'cores_per_slot in schedule_task (not re-checked here)',
+        'R02.16: the colocate tag is meant to outlive the task (header '
+        'comment of Continuous): any removal from self._colo_history (also '
+        'through a local alias) counts, whatever guards it; life-cycle hooks '
+        'are __init__, _configure, initialize and helpers only they call',
     ]
     rep.attempt(r02_1, prog, rep)
     rep.attempt(r02_2, prog, rep)
@@ -2866,6 +3343,8 @@ def run(prog, rep, tier):
     rep.attempt(r02_12, prog, rep)
     rep.attempt(r02_13, prog, rep)
     rep.attempt(r02_14, prog, rep)
+    rep.attempt(r02_15, prog, rep)
+    rep.attempt(r02_16, prog, rep)
     from .c01 import r02_8
     rep.attempt(r02_8, prog, rep)
     # R02.3 information
@@ -3106,6 +3585,30 @@ def _share_forelse(tail="                else:\n"
              "                    loop_gpu_idx = gpu_idx + 1\n\n" + tail)]
 
 
+# --- R02.15 / R02.16 building blocks
+_RR_GUARD = ("        if not rr.n_cores:\n"
+             "            raise ValueError('invalid rank requirements: %s' % rr)\n\n")
+_RR_DIV = "        ranks_per_node = self.cores_per_node / rr.n_cores\n"
+_ASSERT_DEF = "    def _assert_rr(self, rr: RankRequirements, n_slots:int) -> None:\n"
+_UNSCHED = ("        for task in ru.as_list(tasks):\n"
+            "            self._change_slot_states(task['slots'], rpc.FREE)\n\n\n"
+            "    # --------------------------------------------------------------------------\n"
+            "    #\n"
+            "    def _find_resources(self, node, n_slots, cores_per_slot,\n")
+_UNSCHED_TAIL = ("\n\n    # --------------------------------------------------------------------------\n"
+                 "    #\n"
+                 "    def _find_resources(self, node, n_slots, cores_per_slot,\n")
+_UNSCHED_LOOP = ("        for task in ru.as_list(tasks):\n"
+                 "            self._change_slot_states(task['slots'], rpc.FREE)\n")
+_INIT_HIST = ("        self._colo_history = dict()\n"
+              "        self._tagged_nodes = set()\n"
+              "        self._scattered    = None\n")
+
+
+def _unsched(extra):
+    return [(_C, _UNSCHED, _UNSCHED_LOOP + extra + _UNSCHED_TAIL)]
+
+
 MUTATIONS = [
     dict(name='R02.1 short-cores test off by one', rules=('R02.1',), edits=[
         (_C, "            if len(slot['cores']) < cores_per_slot:\n                self._log.debug_9('not enough cores on %s', node_name)\n                break\n",
@@ -3290,7 +3793,59 @@ MUTATIONS = [
     dict(name='R02.12 bool(slots) returned before the placement is stored, handler swallows', rules=('R02.12',), edits=[
         (_B, "            task['exception_detail'] = '\\n'.join(ru.get_exception_trace())\n            raise\n\n        return True\n", "            task['exception_detail'] = '\\n'.join(ru.get_exception_trace())\n\n        return bool(slots)\n"),
         (_B, "        try:\n            uid = task['uid']\n", "        slots = None\n        try:\n            uid = task['uid']\n")]),
+    dict(name='R02.15 _assert_rr treats the core count like the other limits: n_cores == 0 passes (seed C02-i5)', rules=('R02.15',), edits=[
+        (_N, _RR_GUARD + _RR_DIV,
+             "        ranks_per_node = float(self.cores_per_node)\n\n"
+             "        if rr.n_cores:\n"
+             "            ranks_per_node = min(ranks_per_node, self.cores_per_node / rr.n_cores)\n")]),
+    dict(name='R02.15 zero core count guarded against only together with a zero gpu count, division under a test', rules=('R02.15',), edits=[
+        (_N, _RR_GUARD + _RR_DIV,
+             "        if not rr.n_cores and not rr.n_gpus:\n"
+             "            raise ValueError('invalid rank requirements: %s' % rr)\n\n"
+             "        ranks_per_node = float(self.cores_per_node)\n"
+             "        if rr.n_cores:\n"
+             "            ranks_per_node /= rr.n_cores\n")]),
+    dict(name='R02.15 guard tests for None only, zero count gets all cores of the node', rules=('R02.15',), edits=[
+        (_N, _RR_GUARD + _RR_DIV,
+             "        if rr.n_cores is None:\n"
+             "            raise ValueError('invalid rank requirements: %s' % rr)\n\n"
+             "        if rr.n_cores:\n"
+             "            ranks_per_node = self.cores_per_node / rr.n_cores\n"
+             "        else:\n"
+             "            ranks_per_node = self.cores_per_node\n")]),
+    dict(name='R02.15 find_slots does not verify the request any more', rules=('R02.15',), edits=[
+        (_N, "        self._assert_rr(rr, n_slots)\n\n        if self.__last_failed_rr__:\n",
+             "        if self.__last_failed_rr__:\n")]),
+    dict(name='R02.16 unschedule_task forgets the tag of the released task (seed C02-i6)', rules=('R02.16',), edits=_unsched(
+        "\n            colo_tag = task['description'].get('tags', {}).get('colocate')\n"
+        "            if colo_tag is not None:\n"
+        "                self._colo_history.pop(str(colo_tag), None)\n")),
+    dict(name='R02.16 unschedule_task deletes the entry through an alias of the history', rules=('R02.16',), edits=_unsched(
+        "\n            known = self._colo_history\n"
+        "            tag   = str(task['description']['tags'].get('colocate'))\n"
+        "            if tag in known:\n"
+        "                del known[tag]\n")),
+    dict(name='R02.16 unschedule_task drops the nodes of the released task from the entry of the tag', rules=('R02.16',), edits=_unsched(
+        "\n            tag = str(task['description']['tags'].get('colocate'))\n"
+        "            for slot in task['slots']:\n"
+        "                if slot['node_index'] in self._colo_history.get(tag, []):\n"
+        "                    self._colo_history[tag].remove(slot['node_index'])\n")),
+    dict(name='R02.16 the history is reset by a helper that unschedule_task calls too', rules=('R02.16',), edits=[
+        (_C, _INIT_HIST, "        self._reset_tags()\n        self._scattered    = None\n"),
+        (_C, "    # --------------------------------------------------------------------------\n    #\n    def _configure(self):\n",
+             "    # --------------------------------------------------------------------------\n    #\n"
+             "    def _reset_tags(self):\n\n"
+             "        self._colo_history = dict()\n"
+             "        self._tagged_nodes = set()\n\n\n"
+             "    # --------------------------------------------------------------------------\n    #\n    def _configure(self):\n"),
+        (_C, _UNSCHED, _UNSCHED_LOOP +
+             "\n        if not self._active_cnt:\n"
+             "            self._reset_tags()\n" + _UNSCHED_TAIL)]),
+    dict(name='R02.16 jsrun: the history is cleared on release', rules=('R02.16',), edits=[
+        (_J, "        for task in ru.as_list(tasks):\n            self._change_slot_states(task['slots'], rpc.FREE)\n",
+             "        for task in ru.as_list(tasks):\n            self._change_slot_states(task['slots'], rpc.FREE)\n\n        self._colo_history.clear()\n")]),
 ]
+
 
 SILENT = [
     dict(name='short-cores test as not >=', edits=[
@@ -3439,4 +3994,46 @@ SILENT = [
     dict(name='find_slot: pick helper returns the list, stop test as >=', edits=_fs_picked(stop='len(picked) >= count')),
     dict(name='_try_allocation: success signalled by returning bool(slots) from inside the try (SILENT variant of C01)', edits=[
         (_B, "            self._prof.prof('schedule_ok', uid=uid)\n\n        except Exception as e:", "            self._prof.prof('schedule_ok', uid=uid)\n            return bool(slots)\n\n        except Exception as e:")]),
+    dict(name='_assert_rr: zero core count rejected by `< 1`', edits=[
+        (_N, "        if not rr.n_cores:\n            raise ValueError('invalid rank requirements: %s' % rr)\n\n        ranks_per_node",
+             "        if rr.n_cores < 1:\n            raise ValueError('invalid rank requirements: %s' % rr)\n\n        ranks_per_node")]),
+    dict(name='_assert_rr: core count hoisted into a local', edits=[
+        (_N, _RR_GUARD + _RR_DIV,
+             "        n_cores = rr.n_cores\n"
+             "        if not n_cores:\n"
+             "            raise ValueError('invalid rank requirements: %s' % rr)\n\n"
+             "        ranks_per_node = self.cores_per_node / n_cores\n")]),
+    dict(name='_assert_rr: positive test of the core count, raise in the else branch', edits=[
+        (_N, _RR_GUARD + _RR_DIV,
+             "        if rr.n_cores:\n"
+             "            ranks_per_node = self.cores_per_node / rr.n_cores\n"
+             "        else:\n"
+             "            raise ValueError('invalid rank requirements: %s' % rr)\n")]),
+    dict(name='_assert_rr: core count check extracted into a helper method', edits=[
+        (_N, _RR_GUARD + _RR_DIV, "        self._assert_cores(rr)\n\n" + _RR_DIV),
+        (_N, _ASSERT_DEF,
+             "    def _assert_cores(self, req: RankRequirements) -> None:\n\n"
+             "        if req.n_cores <= 0:\n"
+             "            raise ValueError('invalid rank requirements: %s' % req)\n\n\n"
+             "    # --------------------------------------------------------------------------\n    #\n" + _ASSERT_DEF)]),
+    dict(name='_assert_rr: zero core count rejected by `0 == n_cores`', edits=[
+        (_N, "        if not rr.n_cores:\n            raise ValueError('invalid rank requirements: %s' % rr)\n\n        ranks_per_node",
+             "        if 0 == rr.n_cores:\n            raise ValueError('invalid rank requirements: %s' % rr)\n\n        ranks_per_node")]),
+    dict(name='colocate history set up by a helper of __init__', edits=[
+        (_C, _INIT_HIST, "        self._reset_tags()\n        self._scattered    = None\n"),
+        (_C, "    # --------------------------------------------------------------------------\n    #\n    def _configure(self):\n",
+             "    # --------------------------------------------------------------------------\n    #\n"
+             "    def _reset_tags(self):\n\n"
+             "        self._colo_history = dict()\n"
+             "        self._tagged_nodes = set()\n\n\n"
+             "    # --------------------------------------------------------------------------\n    #\n    def _configure(self):\n")]),
+    dict(name='unschedule_task reads the history through an alias and pops from a copy of the tags', edits=_unsched(
+        "\n            known = self._colo_history\n"
+        "            tags  = dict(task['description'].get('tags') or {})\n"
+        "            tag   = tags.pop('colocate', None)\n"
+        "            self._log.debug_5('release %s (tag %s, %d tags known)',\n"
+        "                              task['uid'], tag, len(known))\n")),
+    dict(name='colocate history and tagged nodes bound in one statement', edits=[
+        (_C, "        self._colo_history = dict()\n        self._tagged_nodes = set()\n        self._scattered",
+             "        self._colo_history, self._tagged_nodes = dict(), set()\n        self._scattered")]),
 ]
